@@ -102,12 +102,20 @@ structure TFlags where
   /-- before fix c80f3bb: `math.floor((now - start).total_seconds() / period)` in double arithmetic (parameter `fdiv`);
       now: `(now - start) // period_td`, exact floor division of timedeltas -/
   floatTick : Bool
+  /-- before fix b7a2f54: a `ValueError` of the FIRST `parse_date_time` of `once(...)` (2/29 in a common year) leaves
+      `timer_trigger_next`; now: `except ValueError: … continue` – the entry is skipped -/
+  badDateRaises : Bool
+  /-- before fix b7a2f54: `CroniterBadDateError` of `cron_iter.get_next()` (a day that never occurs: 30 2) leaves
+      `timer_trigger_next`; now: `except CroniterBadDateError: … continue` – the entry is skipped -/
+  cronDeadRaises : Bool
 deriving DecidableEq, Repr
 
-/-- the code before fix c80f3bb -/
-def TFlags.preFix : TFlags := ⟨true⟩
+/-- the oldest code (before the fixes c80f3bb and b7a2f54) -/
+def TFlags.preFix : TFlags := ⟨true, true, true⟩
+/-- the code before fix b7a2f54 (after c80f3bb) -/
+def TFlags.preFixSkip : TFlags := ⟨false, true, true⟩
 /-- the code as it is -/
-def TFlags.current : TFlags := ⟨false⟩
+def TFlags.current : TFlags := ⟨false, false, false⟩
 
 def quot (F : TFlags) (P : Params) (a per : Int) : Int := if F.floatTick then P.fdiv a per else a / per
 
@@ -173,13 +181,15 @@ def cronFuel : Nat := 16
 def specStep (F : TFlags) (P : Params) (now startup : Int) (s : NT) : TSpec → Option NT
   | .once d =>
     match onceCand P d now startup with
-    | none => none
+    | none =>
+      -- since b7a2f54 only the FIRST parse is inside `try … except ValueError: continue`; the re-parse with the day offset is not
+      if !F.badDateRaises && (parseDT P.base d 0 now startup).isNone then some s else none
     | some none => some s
     | some (some t) => some (s.take t t)
   | .period st per stop => periodStep F P st per stop now startup s
   | .cron id =>
     match cronLoop P id now cronFuel now with
-    | none => none
+    | none => if F.cronDeadRaises then none else some s    -- `get_next()` raised (modelled: the iterator never advances)
     | some r => some (s.take r.1 (now + r.2))
 
 def specsLoop (F : TFlags) (P : Params) (now startup : Int) : List TSpec → NT → Option NT
